@@ -26,6 +26,7 @@ type letter struct {
 	Async    bool   // may start work on goroutines other than the peer's handler
 	Status   bool   // a well-formed status message that passes the handshake
 	AmountOf func(e *env) uint64 // requested amount (hash requests only)
+	CapClass func(e *env) string // class of the request for the key of a cap violation
 	Build    func(e *env) []byte
 	Oversize bool
 }
@@ -269,7 +270,7 @@ func alphabet() []*letter {
 				cls = "unknown-hash"
 			}
 			add(&letter{Name: fmt.Sprintf("GetBlockHashesMsg(%s,%s)", h.name, a.name), Code: protocol.GetBlockHashesMsg, CodeName: "GetBlockHashesMsg", Kind: "valid", Class: cls,
-				Reply: protocol.BlockHashesMsg, AmountOf: a.val, Build: func(e *env) []byte { return enc(getBlockHashesData{h.val(e), a.val(e)}) }})
+				Reply: protocol.BlockHashesMsg, AmountOf: a.val, CapClass: func(e *env) string { return amountClass(a.val(e)) }, Build: func(e *env) []byte { return enc(getBlockHashesData{h.val(e), a.val(e)}) }})
 		}
 	}
 
@@ -343,6 +344,18 @@ func alphabet() []*letter {
 			n, a := n, a
 			add(&letter{Name: fmt.Sprintf("GetBlockHashesFromNumberMsg(%s,%s)", n.name, a.name), Code: protocol.GetBlockHashesFromNumberMsg, CodeName: "GetBlockHashesFromNumberMsg",
 				Kind: "valid", Class: "number-" + n.name, Reply: protocol.BlockHashesMsg, AmountOf: a.val,
+				CapClass: func(e *env) string {
+					// the handler clamps the amount and then looks up height number+amount-1; when that is not a height
+					// of the chain it recomputes the amount from the frontier
+					am := a.val(e)
+					if am > 512 {
+						am = 512
+					}
+					if last := n.val(e) + am - 1; last == 0 || last > e.H {
+						return "last-height-not-on-chain"
+					}
+					return amountClass(a.val(e))
+				},
 				Build: func(e *env) []byte { return enc(getBlockHashesFromNumberData{n.val(e), a.val(e)}) }})
 		}
 	}
